@@ -113,6 +113,7 @@ func (c17) Gen(r *rand.Rand, tier string, idx int) *core.Plan {
 	w["deadline"] = int64(core.Pick(r, 10*time.Millisecond, time.Second, time.Minute, 10*time.Minute))
 	w["cancelAt"] = int64(core.Pick(r, time.Duration(0), time.Millisecond, 700*time.Millisecond, 30*time.Second))
 	w["sleepBeforeOutput"] = int64(r.IntN(2))
+	w["prelude"] = int64(r.IntN(4) / 3)
 	if idx%97 == 0 {
 		// the canonical well-behaved plugin, every command
 		for k := range w {
@@ -126,7 +127,7 @@ func (c17) Gen(r *rand.Rand, tier string, idx int) *core.Plan {
 
 func (c17) Simplify(p *core.Plan) []*core.Plan {
 	var out []*core.Plan
-	def := map[string]int64{"exit": 0, "out": 0, "err": 0, "code": 0, "outSize": 0, "errSize": 0, "chunk": 32 * 1024, "order": 0, "timing": 0, "ctx": 0, "holdExit": 0, "sleepBeforeOutput": 0, "cmd": 0}
+	def := map[string]int64{"exit": 0, "out": 0, "err": 0, "code": 0, "outSize": 0, "errSize": 0, "chunk": 32 * 1024, "order": 0, "timing": 0, "ctx": 0, "holdExit": 0, "sleepBeforeOutput": 0, "cmd": 0, "prelude": 0}
 	for k, v := range def {
 		if p.World[k] != v {
 			q := p.Clone()
@@ -322,9 +323,36 @@ func (l c17) Exec(env *core.Env) *core.Result {
 	if cancel != nil {
 		defer cancel()
 	}
+	preN := 0
 	host := sim.Go("host", func() {
-		startSim = sim.Now()
 		pl, err := plugin.NewCLIPlugin(ctx, c17Name, exe)
+		if err == nil && w["prelude"] == 1 {
+			// the plugin object is long-lived: it has already served the same command once, while an honest
+			// build of the plugin was installed; then the executable was replaced by the one under study
+			honest, _, _, _ := c17Stdout(cmdName, "valid", 0)
+			os.WriteFile(exe, simexec.MakeExecutable("script", simexec.Script{"*": []simexec.Step{{Op: "out", Fd: 1, Data: honest}, {Op: "exit"}}}), 0755)
+			bg := context.Background()
+			var perr error
+			switch cmdName {
+			case "get-plugin-metadata":
+				_, perr = pl.GetMetadata(bg, &pf.GetMetadataRequest{})
+			case "describe-key":
+				_, perr = pl.DescribeKey(bg, &pf.DescribeKeyRequest{KeyID: "key-1"})
+			case "generate-signature":
+				_, perr = pl.GenerateSignature(bg, &pf.GenerateSignatureRequest{KeyID: "key-1", KeySpec: pf.KeySpecEC256, Hash: pf.HashAlgorithmSHA256, Payload: []byte("payload")})
+			case "generate-envelope":
+				_, perr = pl.GenerateEnvelope(bg, &pf.GenerateEnvelopeRequest{KeyID: "key-1", PayloadType: "application/vnd.cncf.notary.payload.v1+json", SignatureEnvelopeType: "application/jose+json", Payload: []byte("payload")})
+			case "verify-signature":
+				_, perr = pl.VerifySignature(bg, &pf.VerifySignatureRequest{})
+			}
+			if perr != nil {
+				res.Violate("C17/honest-plugin-refused", cmdName, "an honest plugin (valid reply, exit 0) was refused: %v", perr)
+			}
+			os.WriteFile(exe, simexec.MakeExecutable("script", simexec.Script{"*": steps}), 0755)
+			preN = len(simexec.Log)
+			res.Probe("plugin_object_reused_after_the_executable_was_replaced")
+		}
+		startSim = sim.Now()
 		if err != nil {
 			callErr, returned, returnSim = err, true, sim.Now()
 			return
@@ -359,9 +387,13 @@ func (l c17) Exec(env *core.Env) *core.Result {
 	core.ReportPanics(res, sim, "C17")
 
 	// ---- oracle ----
+	execLog := simexec.Log
+	if preN <= len(execLog) {
+		execLog = execLog[preN:]
+	}
 	var rec *simexec.Exec
-	if len(simexec.Log) > 0 {
-		rec = simexec.Log[0]
+	if len(execLog) > 0 {
+		rec = execLog[0]
 	}
 	key := fmt.Sprintf("cmd=%s exit=%d out=%s err=%s timing=%d ctx=%d", cmdName, exit, outKind, errKind, timing, w["ctx"])
 	outcome := "not-returned"
@@ -388,8 +420,8 @@ func (l c17) Exec(env *core.Env) *core.Result {
 		}
 		return res
 	}
-	if len(simexec.Log) > 1 {
-		res.Violate("C17/more-than-one-process", key, "%d processes were started for one call", len(simexec.Log))
+	if len(execLog) > 1 {
+		res.Violate("C17/more-than-one-process", key, "%d processes were started for one call", len(execLog))
 	}
 	exitedOnItsOwn := rec.ExitSim > 0 || rec.Returned
 	_ = exitedOnItsOwn
